@@ -29,6 +29,12 @@ type bufferPool struct {
 }
 
 func (b *bufferPool) Get() *bytes.Buffer {
+	if verifEnabled && verifHooks != nil && verifHooks.BufGet != nil {
+		if hooked := verifHooks.BufGet(b); hooked != nil {
+			// Route the simulator's pick through the regular code below.
+			b = &bufferPool{Pool: sync.Pool{New: func() any { return hooked }}}
+		}
+	}
 	if buffer, ok := b.Pool.Get().(*bytes.Buffer); ok {
 		buffer.Reset()
 		return buffer
@@ -37,6 +43,11 @@ func (b *bufferPool) Get() *bytes.Buffer {
 }
 
 func (b *bufferPool) Put(buffer *bytes.Buffer) {
+	if verifEnabled && verifHooks != nil && verifHooks.BufPut != nil {
+		if verifHooks.BufPut(b, buffer) {
+			return
+		}
+	}
 	if buffer.Cap() > maxRecycleBufferSize {
 		return
 	}
